@@ -251,6 +251,18 @@ func dimsCmd(args []string) error {
 			}
 		}
 	}
+	// C06: every character a profile name may contain (PNG 11.3.3.3: 32-126 and 161-255; the space only
+	// inside the name), one file per character - 0xAD, the soft hyphen, among them (round 12)
+	if *icc {
+		for ch := 32; ch <= 255; ch++ {
+			if ch > 126 && ch < 161 {
+				continue
+			}
+			if err := emit("png", fmt.Sprintf(`[{"t":"IHDR","w":9,"h":8,"d":8,"ct":2,"il":0},{"t":"iCCP","name":%d,"namech":%d,"method":0,"z":"ok6","pid":2,"cross":false},{"t":"IDAT"},{"t":"IEND"}]`, 3+2*(ch%3), ch)); err != nil {
+				return err
+			}
+		}
+	}
 	fmt.Printf("{\"cases\":%d,\"events\":%d}\n", id, 2*id)
 	return nil
 }
